@@ -9,6 +9,7 @@ import (
 	"fmt"
 	"math"
 	"runtime"
+	"runtime/debug"
 	"sort"
 	"strings"
 	"sync"
@@ -650,6 +651,7 @@ func (w *vtWorld) start(c *vtCaller) {
 	w.wg.Add(1)
 	go func() {
 		defer w.wg.Done()
+		defer notePanic()
 		l, ok := w.st.lim.Acquire(c.ctx)
 		if w.atReturn != nil {
 			w.atReturn(c, ok)
@@ -834,9 +836,70 @@ func bubble[T any](t *testing.T, f func() T) (out T) {
 		}
 	}()
 	synctest.Test(t, func(*testing.T) {
+		// a panic raised by the library itself while the case runs (in this, the bubble's root goroutine) is a
+		// result of the case, not a crash of the test binary: no listed property can hold on a history whose
+		// calls do not return. A panic raised by harness code stays a harness problem.
+		defer func() {
+			if r := recover(); r != nil {
+				o, ok := any(&out).(*kit.Outcome)
+				if !ok {
+					panic(r)
+				}
+				if where := panicOrigin(string(debug.Stack())); where != "" {
+					*o = kit.Viol("library-panic", "the library panicked during the case: %v (in %s)", r, where)
+				} else {
+					*o = kit.Outcome{Harness: fmt.Sprintf("harness panic: %v", r)}
+				}
+			}
+		}()
+		libPanic.Store(nil)
 		out = f()
+		if msg := libPanic.Load(); msg != nil {
+			if o, ok := any(&out).(*kit.Outcome); ok && o.Violation == "" {
+				*o = kit.Viol("library-panic", "%s", *msg)
+			}
+		}
 	})
 	return out
+}
+
+// libPanic: a panic raised by the library in one of the case's own goroutines (callers started by the world);
+// the goroutine ends, the case goes on and bubble() turns the note into the case's outcome.
+var libPanic atomic.Pointer[string]
+
+func notePanic() {
+	if r := recover(); r != nil {
+		where := panicOrigin(string(debug.Stack()))
+		if where == "" {
+			panic(r)
+		}
+		msg := fmt.Sprintf("the library panicked during the case: %v (in %s)", r, where)
+		libPanic.CompareAndSwap(nil, &msg)
+	}
+}
+
+// panicOrigin returns the library function in which the panic recorded in a debug.Stack() dump was raised, or ""
+// when the innermost non-runtime frame below the panic belongs to the harness.
+func panicOrigin(stack string) string {
+	lines := strings.Split(stack, "\n")
+	seenPanic := false
+	for _, l := range lines {
+		if strings.HasPrefix(l, "panic(") {
+			seenPanic = true
+			continue
+		}
+		if !seenPanic || strings.HasPrefix(l, "\t") || strings.HasPrefix(l, "runtime.") || strings.HasPrefix(l, "sync.") || strings.HasPrefix(l, "container/") {
+			continue
+		}
+		if strings.HasPrefix(l, "github.com/platinummonkey/go-concurrency-limits/") {
+			if i := strings.LastIndex(l, "("); i > 0 {
+				return strings.TrimPrefix(l[:i], "github.com/platinummonkey/go-concurrency-limits/")
+			}
+			return l
+		}
+		return ""
+	}
+	return ""
 }
 
 // vtEpoch: instant at which a fresh bubble's clock starts.
